@@ -241,8 +241,9 @@ def _build(rnd, base, names):
         else:
             with open(p, "w") as f:
                 f.write(f"data of {n} {rnd.random()}")
-            os.chmod(p, rnd.choice((0o644, 0o600, 0o4755)))
+            mode = rnd.choice((0o644, 0o600, 0o4755))
             os.chown(p, rnd.choice((0, 7)), rnd.choice((0, 9)))
+            os.chmod(p, mode)   # after the chown: changing the owner clears the set-id bits
             os.utime(p, (1000 + rnd.randrange(50),) * 2)
             files.append(p)
 
